@@ -201,6 +201,11 @@ var behaviours = []behaviour{
 	{"just-after-deadline", func(d time.Duration) gocbcore.SimAnswer {
 		return gocbcore.SimAnswer{Kind: "delay", Delay: d + time.Millisecond}
 	}},
+	{"notfound-at-deadline", func(d time.Duration) gocbcore.SimAnswer {
+		// "key not found" (for several wrappers the cue to issue a follow-up request) arriving exactly when the
+		// shared deadline expires: the follow-up request is dispatched with a context that may already be over
+		return gocbcore.SimAnswer{Kind: "delayerr", Delay: d, Err: kv(gocbcore.ErrDocumentNotFound, memd.StatusKeyNotFound)}
+	}},
 	{"silent", func(time.Duration) gocbcore.SimAnswer { return gocbcore.SimAnswer{Kind: "drop"} }},
 	{"applied-reply-lost", func(time.Duration) gocbcore.SimAnswer { return gocbcore.SimAnswer{Kind: "applydrop"} }},
 }
@@ -271,6 +276,13 @@ func opMain(p OpParams) {
 	took := time.Duration(vrt.NowNanos() - t0)
 	c.DispatchFault, c.Fault = nil, nil
 	desc := fmt.Sprintf("%s %v", op.name, chosen)
+	// 0. when the call returns, none of its requests is still in flight un-cancelled: a request the caller has
+	// given up on ("the pending operation is cancelled") must not reach the server / be applied afterwards
+	for _, r := range c.Requests[n0:] {
+		if r.Agent != "" && r.Answer != "dispatch-error" && r.Answer != "shutdown" && r.Answer != "no-server" && r.Finished == 0 && !r.Cancelled && !r.Done() {
+			vrt.Failf("%s: the call returned (%v) while its %s request (%v) was still in flight and had not been cancelled", desc, err, r.Kind, r.Note)
+		}
+	}
 	// 1. returns by its deadline (a hang shows up as a deadlock status)
 	limit := deadlineIn + 10*time.Millisecond
 	if op.name == "OpenStreamRollback" || op.name == "MetadataSave" || op.name == "GetVBucketSeqNos" {
